@@ -328,6 +328,9 @@ P_SWEEP = [P("no_swallow_sweep_%d" % i, "sweep shard %d/8 over every function of
              "io::Result / anyhow::Result / CompleteIo / TaskResult: the value is inspected, propagated or handed on before it is dropped; "
              "`r.is_ok()` / `r.is_err()` discharge it only on the Ok arm. Exempt: fs_check capability probes; the fsyncer worker's result after HandleDead" % i,
              P_BOUNDS, assumes=[ASSUME_P], timeout_s=60) for i in range(8)]
+P_HANDBACK = P("handback_intact", "try_commit_nonblocking (session, overlay): on every path to `Ok(Some(self))` each field moved out of / mutably "
+               "borrowed from self has been assigned back", P_BOUNDS, assumes=[ASSUME_P])
+P_LOCKFILE = P("lock_file_permanent", "store/flock.rs (Flock::lock, Drop for Flock): no call removes, renames or truncates the lock file", P_BOUNDS, assumes=[ASSUME_P])
 P_DIR_LOCK = P("dir_lock_first", "store::create / Store::open: Flock::lock returned Ok before any database file is created, opened, read or "
                "written, before the I/O pool starts, and on every Ok return", P_BOUNDS, assumes=[ASSUME_P])
 P_FLOCK_RESULT = P("flock_result", "Flock::lock: Ok(Flock) only on the success arm of try_lock_exclusive; no fallible value dropped", P_BOUNDS, assumes=[ASSUME_P])
@@ -470,7 +473,7 @@ PROPERTIES = {
                            "issued it reports success / before the redo log is discarded; decided by z3 over the MIR event structure; a "
                            "counterexample is replayed as a syscall trace (strace) of a real crash-recovery run.",
             "outside": ["what the beatree page writes contain / where they go", "seglog pruning and recovery", "torn sectors, lying fsync", "content-level equivalence"]},
-    "C12": {"level": "model_checking", "obligations": P_COMMIT_CHECK,
+    "C12": {"level": "model_checking", "obligations": P_COMMIT_CHECK + [P_HANDBACK],
             "explanation": "In each of the four commit entry points the previous-root check dominates every effect; counterexamples are "
                            "replayed as concrete API histories (stale commit, then rollback / overlay-chain completeness).",
             "outside": ["interleavings of two racing committers", "effects hidden inside Store::commit on the accepted path"]},
@@ -482,7 +485,7 @@ PROPERTIES = {
                            "n-th fsync / fdatasync / ftruncate / write / pwrite64 on each database file during a commit).",
             "outside": ["hangs (channel pairing)", "what the reopened state is", "errors converted into panics (loud, not swallowed)",
                         "failures of io_uring page reads"]},
-    "C20": {"level": "model_checking", "obligations": [P_DIR_LOCK, P_FLOCK_RESULT, P_RELEASE],
+    "C20": {"level": "model_checking", "obligations": [P_DIR_LOCK, P_FLOCK_RESULT, P_RELEASE, P_LOCKFILE],
             "explanation": "The in-process half of directory exclusivity, decided over the MIR event structure: the advisory lock is "
                            "acquired (and its result honoured) before any database file is touched, a failed lock attempt returns "
                            "without touching anything, and the lock is released only after the I/O workers have been joined. "
